@@ -32,8 +32,8 @@ from saml2_tophat import BINDING_HTTP_REDIRECT, pack, sigver, s_utils
 from saml2_tophat.sigver import verify_redirect_signature, RSACrypto
 
 CLAIM = {
-    "text": "Coq theorems (Props/C15.v) over a model of SIGNER_ALGS / RSACrypto.get_signer / RSASigner / pack.http_redirect_message / Entity.apply_binding / verify_redirect_signature with symbolic RSA, instantiated with the order tables, SIGNER_ALGS key set, SIG_ALLOWED_ALG and the urlencode flavour of each module REGENERATED from the source on every run: (1) for ALL byte strings: any query carrying a Signature value made over (kind, message value, RelayState present/absent, SigAlg) that verifies under ANY certificate, in any verifier state, has the signer's key as that certificate and exactly those four items (injectivity of the octet-string construction from the C14 codec lemmas), hence no other certificate and no single-parameter mutation verifies; unsupported / missing algorithm and missing / foreign Signature never verify; a signed query verifies under the signer's certificate for every supported algorithm when message value and RelayState contain no tilde (the unconditional statement is REFUTED: pack signs with urllib's urlencode, sigver verifies with future.backports' urlencode which escapes the tilde); (2) for EVERY trace of the shared-table transition system (any entities, length, interleaving; induction over the trace) a Sign step uses the key last stored for its algorithm by anybody; own-key-under-any-schedule is REFUTED by the 3-step schedule A.get_signer; B.get_signer (or B verifying); A.sign and proved for schedules in which nobody else stores a key for that algorithm in between. Whether get_signer shares the module-level object and whether the two modules use the same urlencode are regenerated flags the model follows; C15_schedule_status / C15_encoder_status prove the FULL statements for the actual tables as soon as a repair flips a flag. Tie to the code: exhaustive bounded interleavings of two/three differently keyed real entities with real RSA, and an all-algorithms x request/response x mutation sweep through Entity.apply_binding and verify_redirect_signature, compared with the model on every run.",
-    "note": "Trusted: Coq kernel + vm_compute; symbolic RSA (unforgeability and digest distinctness are the assumption, real RSA/SHA enter only through the correspondence runs); the reflection translator harness/translate_c15.py; the hand-written model, tied to the code by the correspondence units. The message parameter VALUE (deflate+base64 of the message) is the model's input: zlib/base64 are C14's. Thread schedules are covered at the granularity of the three shared-state operations (get_signer, sign, verify); the real-thread run is supporting evidence. Two findings on the unchanged code are recorded in known_findings.json (shared signer object; tilde in RelayState). Parameters not named in REQ_ORDER/RESP_ORDER are not covered by the signature (an unsigned extra parameter, including a SAMLResponse added next to a signed SAMLRequest, is ignored by verification): modelled, outside the statement.",
+    "text": "Coq theorems (Props/C15.v) over a model of SIGNER_ALGS / RSACrypto.get_signer / RSASigner / pack.http_redirect_message / Entity.apply_binding / verify_redirect_signature with symbolic RSA, instantiated with the order tables, SIGNER_ALGS key set, SIG_ALLOWED_ALG and the urlencode flavour of each module REGENERATED from the source on every run: (1) for ALL byte strings: any query carrying a Signature value made over (kind, message value, RelayState present/absent, SigAlg) that verifies under ANY certificate, in any verifier state, has the signer's key as that certificate and exactly those four items (injectivity of the octet-string construction from the C14 codec lemmas), hence no other certificate and no single-parameter mutation verifies; unsupported / missing algorithm and missing / foreign Signature never verify, and neither does a candidate certificate text that cannot be read as a certificate, whoever verifies (C15_unreadable_cert_never_verifies); a signed query verifies under the signer's certificate for every supported algorithm, message value and RelayState (C15_own_cert_verifies: FULL statement, proved for today's regenerated encoder flags; before the repair 2c15a188 the two modules' urlencode differed on the tilde - witness C15_own_cert_verifies_refuted under that hypothesis); (2) for EVERY trace of the transition system (any entities, length, interleaving, any state at signing time) a Sign step made with a handle an entity obtained uses that entity's own key (C15_own_key_any_schedule: FULL statement, proved for today's regenerated flag 'get_signer returns a fresh signer'); for the shared-object behaviour before the repair 8429fa3f the file keeps the exact characterisation (a Sign uses the key last stored by anybody, induction over the trace) and the refutation by A.get_signer; B.get_signer (or B verifying); A.sign, both under the hypothesis that the flag says shared. Whether get_signer shares the module-level object and whether the two modules use the same urlencode are regenerated flags the model follows; C15_schedule_status / C15_encoder_status prove the FULL statements for the actual tables as soon as a repair flips a flag. Tie to the code: exhaustive bounded interleavings of two/three differently keyed real entities with real RSA, and an all-algorithms x request/response x mutation sweep through Entity.apply_binding and verify_redirect_signature, compared with the model on every run.",
+    "note": "Trusted: Coq kernel + vm_compute; symbolic RSA (unforgeability and digest distinctness are the assumption, real RSA/SHA enter only through the correspondence runs); the reflection translator harness/translate_c15.py; the hand-written model, tied to the code by the correspondence units. The message parameter VALUE (deflate+base64 of the message) is the model's input: zlib/base64 are C14's. Thread schedules are covered at the granularity of the three shared-state operations (get_signer, sign, verify); the real-thread run is supporting evidence. Two defects found by this check were repaired in /repo (fix: 8429fa3f shared signer object, fix: 2c15a188 tilde in RelayState; known_findings.json 'fixed'); if either returns, C15_own_key_any_schedule / C15_own_cert_verifies stop compiling against the regenerated flags and the schedule / sweep oracles produce the replay. Parameters not named in REQ_ORDER/RESP_ORDER are not covered by the signature (an unsigned extra parameter, including a SAMLResponse added next to a signed SAMLRequest, is ignored by verification): modelled, outside the statement.",
     "technique": "machine-checked proof (Coq: injectivity over all strings, induction over all traces) + regenerated-table obligations + deterministic step-sequencing correspondence with real RSA + mutation sweep",
 }
 TRUSTED = [
@@ -464,6 +464,84 @@ def unit_verify_sweep(ctx):
                    "(option keyid * query * option keyid * option keyid)", cases, shard=250)
 
 
+# ------------------------------------------------------------------ unit: certificate texts that cannot be read
+def unreadable_presentations(cs):
+    """certificate arguments a caller may hand over that are NOT a readable base64 DER certificate"""
+    own = cs["sp"]
+    pem = "-----BEGIN CERTIFICATE-----\n%s\n-----END CERTIFICATE-----\n"
+    cands = {
+        "pem-armoured-idp": pem % cs["idp"],            # pem_format() armours it a second time
+        "pem-armoured-sp": pem % cs["sp"],
+        "truncated": own[:len(own) // 2],
+        "damaged-tail": own[:-24],
+        "text": "not a certificate",
+        "base64-of-noise": base64.b64encode(bytes(range(7, 250, 3))).decode(),
+        "der-prefix-only": own[:64],
+    }
+    out = {}
+    for name, text in cands.items():
+        if isinstance(_call(sigver.extract_rsa_key_from_x509_cert, sigver.pem_format(text)), Exn):
+            out[name] = text
+    return out
+
+
+def unit_unreadable_cert(ctx):
+    """`under no other certificate` includes a candidate certificate that cannot be read: verification must not
+    fall back to a key of the verifier's own (the verifying entity may hold the very key that signed: an entity
+    checking its own URL, two entities sharing a key pair, a message reflected to its sender)."""
+    ents = entities()
+    cs = certs()
+    algs = supported_algs()
+    bad = unreadable_presentations(cs)
+    ctx.count("badcert:presentations", len(bad))
+    cases = []
+    for sname in ("sp", "idp"):
+        E = ents[sname]
+        for alg, resp, rs in itertools.product(algs, (False, True), ("", "rs~1 &x")):
+            typ = "SAMLResponse" if resp else "SAMLRequest"
+            info = _call(E.apply_binding, BINDING_HTTP_REDIRECT, MSG, DEST, relay_state=rs, response=resp, sign=True, sigalg=alg)
+            if isinstance(info, Exn):
+                continue
+            q = query_of(location(info))
+            if "Signature" not in q:
+                continue
+            csig = "(Some (made_sig actual %d %s %s %s %s))" % (KEYID[sname], cstr(typ), cstr(b(q[typ])), cstr(b(rs)), cstr(alg))
+            variants = [("intact", q)]
+            qq = dict(q); qq.pop("SigAlg"); variants.append(("no-sigalg", qq))
+            qq = dict(q); qq["SigAlg"] = UNSUPPORTED[0]; variants.append(("unsupported-sigalg", qq))
+            qq = dict(q); qq.pop("Signature"); variants.append(("no-signature", qq))
+            qq = dict(q); qq["Signature"] = "%%%not-base64"; variants.append(("junk-signature", qq))
+            for vname in (sname, "idp" if sname == "sp" else "sp", "none"):
+                crypto = RSACrypto(None) if vname == "none" else ents[vname].sec.sec_backend
+                for skname in (None, sname):
+                    sigkey = None if skname is None else sigver.extract_rsa_key_from_x509_cert(sigver.pem_format(cs[skname]))
+                    for vn, qm in variants:
+                        for cname, text in bad.items():
+                            if vn != "intact" and cname not in ("text", "pem-armoured-idp"):
+                                continue
+                            r = _call(verify_redirect_signature, dict(qm), crypto, text, sigkey)
+                            sigtxt = qm.get("Signature")
+                            cs_ = "None" if sigtxt is None else csig if sigtxt == q["Signature"] else \
+                                "(Some (SigJunk %s))" % cbool(not isinstance(_call(base64.b64decode, sigtxt), Exn))
+                            ps = [(k, v) for k, v in qm.items() if k != "Signature"]
+                            coq = "(%s, {| q_params := %s; q_sig := %s |}, %s)" % (
+                                copt(None if vname == "none" else KEYID[vname], str), cpairs(ps), cs_,
+                                copt(KEYID[skname] if skname else None, str))
+                            show = dict(signer=sname, alg=alg, typ=typ, rs=rs, query=vn, verifier=vname, cert=cname, sigkey=skname)
+                            # compared at the property's granularity: verified or not
+                            cases.append(dict(id=len(cases), coq=coq, impl=(r is True), show=show))
+                            ctx.count("badcert:%s" % ("True" if r is True else "False" if r is False else "None" if r is None else r.name))
+                            ctx.nontriv(("badcert", sname, alg, typ, rs, vn, vname, cname, skname))
+                            if r is True:
+                                ctx.oracle_fail("unreadable-cert-accepted:%s:verifier-%s" % (cname, "is-signer" if vname == sname else "other"),
+                                                "a URL signed by %s verifies under a certificate text that cannot be read as a certificate (%s), verifier %s, sigkey %s" % (sname, cname, vname, skname),
+                                                dict(show, unit="badcert", cert_text=text))
+    ctx.sample(dict(unit="unreadable_cert", presentations=sorted(bad), cases=len(cases)))
+    correspond(ctx, "unreadable_cert", "Model.Redirect",
+               "fun c => match c with (e, q, sk) => VB (verifies (verify_presented actual (init_shared actual) e q PUnreadable sk)) end",
+               "(option keyid * query * option keyid)", cases, shard=250)
+
+
 # ------------------------------------------------------------------ unit: schedule (the LTS)
 NAMES = ["sp", "idp", "other"]
 
@@ -681,6 +759,7 @@ def run(ctx):
     unit_sign_string(ctx)
     unit_verify_string(ctx)
     unit_verify_sweep(ctx)
+    unit_unreadable_cert(ctx)
     unit_schedule(ctx)
     if not ctx.quick:
         unit_threads(ctx)
